@@ -130,3 +130,186 @@ Proof.
       * now left.
     + apply IH in L. destruct L as [L|L]; [now left | right; now right].
 Qed.
+
+(* ======================= a mark / a committed offset exists only for an ACKNOWLEDGED record =======================
+   The three maps of the group model — B (Kafka), M (kgo's heads), C (what the member knows to be committed) — under
+   the operations the model applies to them: a member joins (M = C = the fetched B), Commit of the event of an
+   acknowledged record, the commit tick / Stop. [ginv acked B M C] is kept by all of them and says what the
+   observations of which = 5 show (MarkedOffsets = the heads of M that differ from C; the broker's offsets = B):
+   every one of them is (offset + 1, epoch) of a record in [acked], under that record's own topic and partition. *)
+Definition keys_unique (m : marks) : Prop := NoDup (map fst m).
+
+Definition ginv (acked : list krec) (B M C : marks) : Prop :=
+  from_records acked B /\ keys_unique B /\ keys_unique M /\
+  (forall k h, In (k, h) M -> live C (k, h) = true -> exists r, In r acked /\ key_of r = k /\ h = head_of r).
+
+Lemma eo_eqb_refl h : eo_eqb h h = true.
+Proof. unfold eo_eqb. rewrite !Z.eqb_refl. reflexivity. Qed.
+
+Lemma in_mark_set m k h k1 h1 : In (k1, h1) (mark_set m k h) -> In (k1, h1) m \/ (k1 = k /\ h1 = h).
+Proof.
+  induction m as [|[k0 c] m IH]; cbn [mark_set].
+  - intros [E|[]]. inversion E. now right.
+  - destruct (key_eqb k0 k) eqn:E0.
+    + apply key_eqb_eq in E0; subst k0. intros [E|H]; [inversion E; now right | left; now right].
+    + intros [E|H]; [left; now left|]. destruct (IH H) as [H1|H1]; [left; now right | now right].
+Qed.
+
+Lemma keys_mark_set m k h k' : In k' (map fst (mark_set m k h)) -> k' = k \/ In k' (map fst m).
+Proof.
+  induction m as [|[k0 c] m IH]; cbn [mark_set map fst].
+  - intros [E|[]]. now left.
+  - destruct (key_eqb k0 k) eqn:E0; cbn [map fst].
+    + intros H. now right.
+    + intros [E|H]; [right; now left|]. destruct (IH H) as [H1|H1]; [now left | right; now right].
+Qed.
+
+Lemma keys_unique_mark_set m k h : keys_unique m -> keys_unique (mark_set m k h).
+Proof.
+  unfold keys_unique. induction m as [|[k0 c] m IH]; cbn [mark_set map fst]; intros ND.
+  - constructor; [intros [] | constructor].
+  - inversion ND as [|? ? Hn ND']; subst. destruct (key_eqb k0 k) eqn:E0; cbn [map fst].
+    + constructor; assumption.
+    + constructor; [|now apply IH]. intros Hin. destruct (keys_mark_set _ _ _ _ Hin) as [->|H]; [|now apply Hn].
+      rewrite key_eqb_refl in E0. discriminate.
+Qed.
+
+Lemma keys_mark_update m k h k' : In k' (map fst (mark_update m k h)) -> k' = k \/ In k' (map fst m).
+Proof.
+  induction m as [|[k0 c] m IH]; cbn [mark_update map fst].
+  - intros [E|[]]. now left.
+  - destruct (key_eqb k0 k) eqn:E0; cbn [map fst].
+    + intros H. now right.
+    + intros [E|H]; [right; now left|]. destruct (IH H) as [H1|H1]; [now left | right; now right].
+Qed.
+
+Lemma keys_unique_mark_update m k h : keys_unique m -> keys_unique (mark_update m k h).
+Proof.
+  unfold keys_unique. induction m as [|[k0 c] m IH]; cbn [mark_update map fst]; intros ND.
+  - constructor; [intros [] | constructor].
+  - inversion ND as [|? ? Hn ND']; subst. destruct (key_eqb k0 k) eqn:E0; cbn [map fst].
+    + constructor; assumption.
+    + constructor; [|now apply IH]. intros Hin. destruct (keys_mark_update _ _ _ _ Hin) as [->|H]; [|now apply Hn].
+      rewrite key_eqb_refl in E0. discriminate.
+Qed.
+
+Lemma lookup_none_not_key m k : ~ In k (map fst m) -> lookup m k = None.
+Proof.
+  induction m as [|[k0 c] m IH]; cbn [lookup map fst]; intros Hn; [reflexivity|].
+  destruct (key_eqb k0 k) eqn:E.
+  - apply key_eqb_eq in E. subst. elim Hn. now left.
+  - apply IH. intros H. apply Hn. now right.
+Qed.
+
+Lemma unique_in_lookup m k h : keys_unique m -> In (k, h) m -> lookup m k = Some h.
+Proof.
+  unfold keys_unique. induction m as [|[k0 c] m IH]; cbn [lookup map fst]; intros ND Hin; [contradiction|].
+  inversion ND as [|? ? Hn ND']; subst. destruct Hin as [E|Hin].
+  - inversion E; subst. now rewrite key_eqb_refl.
+  - destruct (key_eqb k0 k) eqn:E0; [|now apply IH].
+    apply key_eqb_eq in E0. subst k0. elim Hn. apply in_map_iff. exists (k, h). split; [reflexivity | assumption].
+Qed.
+
+(* CommitMarkedOffsets over heads with unique keys: what is new in Kafka is a head that differed from `committed`,
+   afterwards no head differs from `committed`, and the partitions without a head keep their `committed` *)
+Lemma tick_spec : forall m b c, keys_unique m ->
+  (forall k h, In (k, h) (fst (tick_marks m (b, c))) -> In (k, h) b \/ (In (k, h) m /\ live c (k, h) = true)) /\
+  (forall k h, In (k, h) m -> live (snd (tick_marks m (b, c))) (k, h) = false) /\
+  (forall k, ~ In k (map fst m) -> lookup (snd (tick_marks m (b, c))) k = lookup c k) /\
+  (keys_unique b -> keys_unique (fst (tick_marks m (b, c)))).
+Proof.
+  unfold tick_marks, keys_unique. induction m as [|[k0 h0] m IH]; intros b c ND; cbn [fold_left fst snd map].
+  - repeat split; auto. intros k h [].
+  - inversion ND as [|? ? Hn ND']; subst. cbn [fst snd].
+    set (bc1 := if live c (k0, h0) then (mark_set b k0 h0, mark_set c k0 h0) else (b, c)).
+    assert (Hbc : bc1 = (fst bc1, snd bc1)) by (destruct bc1; reflexivity).
+    rewrite Hbc. destruct (IH (fst bc1) (snd bc1) ND') as (I1 & I2 & I3 & I4).
+    assert (Hc1 : forall k, k <> k0 -> lookup (snd bc1) k = lookup c k).
+    { intros k Hk. unfold bc1. destruct (live c (k0, h0)); cbn [snd]; [|reflexivity].
+      rewrite lookup_mark_set. destruct (key_eqb k0 k) eqn:E; [|reflexivity].
+      apply key_eqb_eq in E. congruence. }
+    split; [|split; [|split]].
+    + intros k h Hin. destruct (I1 k h Hin) as [Hb|(Hm & Hl)].
+      * unfold bc1 in Hb. destruct (live c (k0, h0)) eqn:L0; cbn [fst] in Hb; [|now left].
+        destruct (in_mark_set _ _ _ _ _ Hb) as [H|(-> & ->)]; [now left|]. right. split; [now left | assumption].
+      * right. split; [now right|]. unfold live in *. cbn [fst snd] in *.
+        rewrite Hc1 in Hl; [assumption|]. intros ->. apply Hn. apply in_map_iff. exists (k0, h). split; [reflexivity|assumption].
+    + intros k h [E|Hin]; [|now apply I2]. inversion E; subst k h.
+      unfold live at 1. cbn [fst snd]. rewrite (I3 k0 Hn). unfold bc1.
+      destruct (live c (k0, h0)) eqn:L0; cbn [snd].
+      * rewrite lookup_mark_set, key_eqb_refl, eo_eqb_refl. reflexivity.
+      * exact L0.
+    + intros k Hk. rewrite I3 by (intros H; apply Hk; now right). apply Hc1. intros ->. apply Hk. now left.
+    + intros NDb. apply I4. unfold bc1. destruct (live c (k0, h0)); cbn [fst]; [|assumption].
+      now apply keys_unique_mark_set.
+Qed.
+
+(* nothing acknowledged, nothing marked, nothing committed *)
+Lemma ginv_start : ginv [] [] [] [].
+Proof. repeat split; try constructor; intros k h []. Qed.
+
+(* a member joins (Start, or Lost + Assigned of an eager rebalance): kgo takes the group's offsets as its heads *)
+Lemma ginv_join c acked B M C :
+  ginv acked B M C -> ginv acked B (map (fetched_head c) B) (map (fetched_head c) B).
+Proof.
+  intros (FB & UB & _ & _).
+  assert (UM : keys_unique (map (fetched_head c) B)).
+  { unfold keys_unique in *. rewrite map_map. cbn [fetched_head fst]. exact UB. }
+  repeat split; try assumption.
+  intros k h Hin Hl. unfold live in Hl. cbn [fst snd] in Hl.
+  rewrite (unique_in_lookup _ _ _ UM Hin), eo_eqb_refl in Hl. discriminate.
+Qed.
+
+(* Commit of the event the consumer built for an in-range record: the record is acknowledged now *)
+Lemma ginv_commit topics acked B M C r :
+  len topics <= 2 ^ 48 -> rec_in_range topics r -> ginv acked B M C ->
+  exists M', commit topics M (event_of topics r) = Ok M' /\ ginv (r :: acked) B M' C.
+Proof.
+  intros Hlen Hr (FB & UB & UM & HM).
+  exists (mark_update M (key_of r) (head_of r)). split; [now apply commit_of_record|].
+  split; [eapply from_records_incl; [|exact FB]; intros x Hx; now right|].
+  split; [assumption|]. split; [now apply keys_unique_mark_update|].
+  intros k h Hin Hl. destruct (in_mark_update _ _ _ _ _ Hin) as [H|(-> & ->)].
+  - destruct (HM k h H Hl) as (r' & Hr' & Hk). exists r'. split; [now right | exact Hk].
+  - exists r. split; [now left | split; reflexivity].
+Qed.
+
+(* CommitMarkedOffsets (the auto-commit tick, Plugin.Stop) *)
+Lemma ginv_tick acked B M C :
+  ginv acked B M C -> ginv acked (fst (tick_marks M (B, C))) M (snd (tick_marks M (B, C))).
+Proof.
+  intros (FB & UB & UM & HM).
+  destruct (tick_spec M B C UM) as (T1 & T2 & _ & T4).
+  split; [|split; [now apply T4 | split; [assumption|]]].
+  - intros k h Hin. destruct (T1 k h Hin) as [Hb|(Hm & Hl)]; [now apply FB | now apply HM].
+  - intros k h Hin Hl. rewrite (T2 k h Hin) in Hl. discriminate.
+Qed.
+
+(* what the observations show under the invariant: every head MarkedOffsets shows and every offset Kafka holds
+   passes the executable test of the harness against the acknowledged records *)
+Lemma ginv_observed acked B M C :
+  ginv acked B M C ->
+  forallb (head_of_some_record acked) (filter (live C) M) = true /\ forallb (head_of_some_record acked) B = true.
+Proof.
+  intros (FB & _ & _ & HM). split.
+  - apply forallb_forall. intros [k h] Hin. apply filter_In in Hin. destruct Hin as (Hin & Hl).
+    apply head_of_some_record_true. now apply HM.
+  - now apply from_records_forallb.
+Qed.
+
+Theorem group_marks_only_acked :
+  ginv [] [] [] [] /\
+  (forall c acked B M C, ginv acked B M C -> ginv acked B (map (fetched_head c) B) (map (fetched_head c) B)) /\
+  (forall topics acked B M C r,
+     len topics <= 2 ^ 48 -> rec_in_range topics r -> ginv acked B M C ->
+     exists M', commit topics M (event_of topics r) = Ok M' /\ ginv (r :: acked) B M' C) /\
+  (forall acked B M C, ginv acked B M C -> ginv acked (fst (tick_marks M (B, C))) M (snd (tick_marks M (B, C)))) /\
+  (forall acked B M C, ginv acked B M C ->
+     forallb (head_of_some_record acked) (filter (live C) M) = true /\
+     forallb (head_of_some_record acked) B = true /\
+     (forall k h, In (k, h) B -> exists r, In r acked /\ key_of r = k /\ h = head_of r)).
+Proof.
+  split; [exact ginv_start|]. split; [exact ginv_join|]. split; [exact ginv_commit|]. split; [exact ginv_tick|].
+  intros acked B M C H. destruct (ginv_observed _ _ _ _ H) as (H1 & H2). split; [assumption|]. split; [assumption|].
+  destruct H as (FB & _). exact FB.
+Qed.
